@@ -4,7 +4,17 @@
 use std::sync::mpsc;
 use std::sync::Mutex;
 use std::time::{Duration, Instant, SystemTime, UNIX_EPOCH};
-use crate::{hex, Rng};
+use crate::Rng;
+
+/// hex of UTF-8, with the EMPTY string rendered as `e` (a function without arguments has the empty key; an
+/// empty token would be indistinguishable from "no key" in the dump format)
+pub fn hex(s: &str) -> String {
+    if s.is_empty() {
+        "e".to_string()
+    } else {
+        crate::hex(s)
+    }
+}
 
 pub mod rt {
     use std::future::Future;
@@ -213,6 +223,7 @@ pub struct Spec {
     pub thread: bool,
     pub limit: Option<usize>,
     pub max_mem: Option<usize>,
+    pub ttl: Option<u64>,
     pub ident: String,
     pub tags: Vec<String>,
     pub events: Vec<String>,
@@ -232,6 +243,7 @@ pub fn parse_spec(s: &str) -> Spec {
         thread: p[4] == "1",
         limit: o(cfg[2]),
         max_mem: o(cfg[3]),
+        ttl: o(cfg[4]).map(|t| t as u64),
         ident: p[13].to_string(),
         tags: l(p[10]),
         events: l(p[11]),
@@ -279,13 +291,18 @@ impl Workers {
 
 pub const NTHREADS: usize = 3;
 
+/// granularity (ms) to which sync ages are floored in dumps: 100 for sequential episodes (virtual time in
+/// multiples of 100 ms, real-time budget 80 ms), 1000 for scheduled runs (no virtual time, longer real time)
+pub static AGE_GRAIN: std::sync::atomic::AtomicU64 = std::sync::atomic::AtomicU64::new(100);
+
 pub fn render_dump(d: &cachelito_core::verif::CacheDump, is_async: bool) -> String {
     // canonical order: by (hex) key — exactly the order the Lean driver uses
     let mut es: Vec<(String, String)> = d
         .entries
         .iter()
         .map(|(k, v, sz, age, hits)| {
-            let age = if is_async { *age } else { age / 100 * 100 };
+            let g = AGE_GRAIN.load(std::sync::atomic::Ordering::Relaxed);
+            let age = if is_async { *age } else { age / g * g };
             (hex(k), format!("{}={},{},{},{}", hex(k), hex(v), sz, age, hits))
         })
         .collect();
